@@ -11,9 +11,14 @@
 //! Oracle: parse(format(parts)) == parts; every URI yields back the manifest label and the assertion/box label it was built
 //! from; relative/absolute conversions invert; label_with_instance/assertion_label_from_link invert for SDK assertion labels.
 //!
-//! Mutants caught (tools/mutant_run.sh C <diff> C34 quick):
-//!   /verif/mutants/C34-parts-len.diff   (manifest_label_to_parts: `parts.len() > 4` -> `> 5` when reading the version)
-//!   /verif/mutants/C34-relative-uri.diff (to_relative_uri keeps one path segment too many)
+//! Finding on the unchanged tree: a 1.x label whose vendor is the literal "urn" ("urn:urn:uuid:<guid>", which Claim::new
+//! generates for vendor "urn", claim version 1) does not parse: keys "manifest-label not parseable v1=true vendor=literal-urn …",
+//! "manifest-uri parts differ v1=true vendor=literal-urn …", "claim-new label not parseable claim_version=1 vendor=literal-urn".
+//!
+//! Mutants caught (quick tier, patched scratch worktree, /verif/target-mut-C):
+//!   /verif/mutants/C34-vendor-len-off-by-one.diff  vendor length check `> 32` -> `>= 32`   -> "manifest-label not parseable v1=false vendor=len32 …"
+//!   /verif/mutants/C34-reason-dropped.diff         reason read from the wrong split index     -> "manifest-label parts differ … reason=…"
+//!   /verif/mutants/C34-relative-uri.diff           to_relative_uri `parts.len() > 4` -> `> 5` -> "uri to_relative_uri(assertion-uri) manifest=… box-shape=…"
 
 use c2pa::verif_hooks::{label as L, manifest_parts_to_label, Claim};
 use kit::{par, Run};
